@@ -164,6 +164,13 @@ impl G<'_> {
                     "echo bg >bgfile & wait; relay <bgfile",
                     "(exit 5) & (exit 6) & wait; echo \"st=$?\"",
                     "wait 99999; echo \"st=$?\"",
+                    // descriptors 10 and up are where the shell keeps its own copies while a
+                    // redirection is in effect: a script can neither reach nor replace them
+                    "{ echo ten >&10; } >ten.out; echo \"st=$?\"; relay <ten.out",
+                    "{ relay <&10; } <f0; echo \"st=$?\"",
+                    "{ echo x 10>&1; echo y; } >ten.out; echo \"st=$?\"; relay <ten.out",
+                    "{ { echo eleven >&11; } 2>/dev/null; } >ten.out; echo \"st=$?\"; relay <ten.out",
+                    "{ exec 10>&-; echo still; } >ten.out; echo \"st=$?\"; relay <ten.out",
                 ]);
                 self.lines.push(l.into());
             }
@@ -293,6 +300,15 @@ fn gen_script(rng: &mut Rng) -> (String, Vec<&'static str>) {
         g.features.push("ulimit");
     }
     // the end of the script
+    // (after an asynchronous command - around whose fork the shell blocks INT and QUIT for a
+    // moment - those two signals must be deliverable to the shell again)
+    let had_async = g.lines.iter().any(|l| l.contains(" & "));
+    if had_async && g.rng.chance(40) {
+        // (no `trap -` first: resetting the trap would unblock the signal by itself)
+        let sig = *g.rng.pick(&["INT", "QUIT"]);
+        g.lines.push(format!("kill -s {sig} $$; echo after-{sig}"));
+        g.features.push("signals");
+    }
     match g.rng.below(8) {
         0 => g.lines.push("trap 'echo bye st=$?' EXIT".into()),
         1 => g.lines.push(format!("exit {}", g.rng.below(300))),
